@@ -433,6 +433,19 @@ def canon_model(out):
 class FlushFailed(Exception):
     pass
 
+def _oflush_delegates():
+    """does Entity.flush of THIS tree save a marked_to_delete object through SessionCache.flush (whole queue, in order)?"""
+    import inspect, ast, textwrap
+    try:
+        fn = ast.parse(textwrap.dedent(inspect.getsource(core.Entity.flush))).body[0]
+    except Exception:
+        return False
+    for n in ast.walk(fn):
+        if isinstance(n, ast.If) and "== 'marked_to_delete'" in ast.unparse(n.test) and 'cache.flush()' in ast.unparse(n):
+            return True
+    return False
+OFLUSH_OF_DELETED_IS_FULL_FLUSH = _oflush_delegates()
+
 class SpyList(list):
     """objects_to_save replaced by a list that remembers what it held when SessionCache.flush empties it
     (`cache.objects_to_save[:] = ()`): the only way to see the slots as `_save_` left them"""
@@ -464,6 +477,8 @@ class Run:
         self.stats = {}
         self.prng = random.Random(1000003 * ctx.seed + 17)    # permutation experiments (independent of op generation)
         self.perm_reqs = []       # (model 'accepts' request, what SQLite said, context)
+        self.oflushed_deleted = []  # objects deleted through obj.flush() in the running session
+        self.escaped = []         # exceptions that escaped from an op outside Pony's own frames (reported as divergences)
         self.doomed_pairs = set() # {tag, tag} pairs the application linked while one of them was already deleted
         self.delq = []            # obj.delete() calls recorded for the delete-queue model
         self.planned = []         # ops of a multi-op pattern (reference cycle) still to be issued
@@ -507,9 +522,51 @@ class Run:
             return [['new', e, tx, kx, {}], ['new', te, ty, ky, {}], ['set', tx, fwd, ty]]
         return None
 
+    def plan_child_then_parent(self):
+        """on objects the session already holds: move or delete a child (unflushed), then delete the object it referred to -
+        whose other referrers may never have been loaded"""
+        w, rng = self.w, self.rng
+        cands = []
+        for t, o in sorted(w.objs.items()):
+            if o._status_ in DEAD: continue
+            e = w.E.index(o.__class__)
+            for name, te, req in w.ref_attrs[e]:
+                v = o._vals_.get(getattr(o.__class__, name))
+                if isinstance(v, core.Entity) and v._status_ not in DEAD:
+                    pt = v._vals_.get(v.__class__.tag)
+                    if pt is not None: cands.append((t, name, te, req, pt))
+        if not cands: return None
+        t, name, te, req, pt = rng.choice(cands)
+        others = [x for x in w.alive(te) if x != pt and x in w.objs]
+        first = ['del', t]
+        if others and rng.random() < 0.6: first = ['set', t, name, rng.choice(others)]
+        elif not req and rng.random() < 0.4: first = ['set', t, name, None]
+        return [first, ['del', pt]]
+
     def gen_op(self, nops):
         w, rng = self.w, self.rng
         if self.planned: return self.planned.pop(0)
+        if nops > 0 and getattr(self, 'preload_left', 0) > 0 and not w.db._get_cache().modified:
+            self.preload_left -= 1
+            # follow a reference of something already fetched (the referenced object is known by key only so far) or fetch another row
+            seeds = []
+            for t, o in sorted(w.objs.items()):
+                for name, te, req in w.ref_attrs[w.E.index(o.__class__)]:
+                    v = o._vals_.get(getattr(o.__class__, name))
+                    if isinstance(v, core.Entity) and v._status_ not in DEAD and v._vals_.get(v.__class__.tag) is None: seeds.append(v)
+            if seeds and rng.random() < 0.7:
+                return ['load', rng.choice(seeds).tag]              # reading .tag fetches that one row by primary key
+            return ['load', rng.choice(sorted(w.persist))]
+        if nops == 0: self.preload_left = 0
+        if nops == 0 and w.persist and rng.random() < 0.5:
+            # a fresh session that first fetches a few objects one by one (their collections are not loaded) and then works
+            # on them without further queries: re-parent / delete a child unflushed, delete a parent whose other children
+            # were never loaded ...
+            self.preload_left = rng.choice([2, 3, 4, 6]) - 1
+            return ['load', rng.choice(sorted(w.persist))]
+        if w.objs and rng.random() < (0.3 if getattr(self, 'preload_left', 0) == 0 and nops <= 8 and not w.db._get_cache().modified else 0.1):
+            plan = self.plan_child_then_parent()
+            if plan: self.planned = plan[1:]; return plan[0]
         if rng.random() < 0.04:
             plan = self.plan_cycle()
             if plan: self.planned = plan[1:]; return plan[0]
@@ -541,6 +598,8 @@ class Run:
                 return ['new', e, tag, kw, links]
             al = w.alive()
             if not al: continue
+            loaded = [t for t in al if t in w.objs]
+            if loaded and rng.random() < 0.75: al = loaded       # stay on what the session already holds (no query, no auto-flush)
             t = rng.choice(al); o = w.get(t)
             if o is None: continue
             e = w.E.index(o.__class__)
@@ -548,6 +607,8 @@ class Run:
                 if not w.ref_attrs[e]: continue
                 name, te, req = rng.choice(w.ref_attrs[e])
                 cands = w.alive(te)
+                lc = [c for c in cands if c in w.objs]
+                if lc and rng.random() < 0.75: cands = lc
                 # forward references to objects created later in the session are what makes orders interesting
                 if (not req and rng.random() < 0.25) or not cands: tgt = None
                 else: tgt = rng.choice(cands)
@@ -558,7 +619,9 @@ class Run:
                 # reading an attribute makes it part of the optimistic check of a later UPDATE
                 if not w.ref_attrs[e]: continue
                 return ['read', t, rng.choice(w.ref_attrs[e])[0]]
-            if r < 0.81: return [rng.choice(['del', 'delq']), t]
+            if r < 0.81:
+                if rng.random() < 0.12: self.planned = [['oflush', t]]        # obj.delete(); obj.flush()
+                return [rng.choice(['del', 'delq']), t]
             if r < 0.88:
                 if not w.m2m_attrs[e]: continue
                 name, te = rng.choice(w.m2m_attrs[e]); cands = w.alive(te)
@@ -607,6 +670,9 @@ class Run:
             o = w.get(op[1])
             if o is None: raise LookupError('stale target')
             o.val = op[2]
+        elif k == 'load':
+            # fetch one object by its key at the start of a session: its collections stay unloaded
+            if w.get(op[1]) is None: raise LookupError('stale target')
         elif k == 'read':
             o = w.get(op[1])
             if o is None: raise LookupError('stale target')
@@ -689,6 +755,10 @@ class Run:
     def flush_point(self, kind, obj):
         w = self.w
         cache = w.db._get_cache()
+        if kind == 'oflush' and obj._status_ == 'marked_to_delete' and OFLUSH_OF_DELETED_IS_FULL_FLUSH:
+            # this tree's Entity.flush hands a deleted object to SessionCache.flush (fixes/C16-flush-of-deleted-object.diff):
+            # the flush point is an ordinary full flush, entered through obj.flush()
+            kind = 'oflush-full'
         if kind == 'oflush':
             if obj._status_ not in PENDING: return True
             ab, by_tag, by_pk, ent_of, objs = w.abstract(queue_override=[obj], with_m2m=False)
@@ -696,6 +766,7 @@ class Run:
             if not cache.modified: return True
             ab, by_tag, by_pk, ent_of, objs = w.abstract()
         cyclic = find_cycle(ab)
+        if kind == 'oflush' and obj._status_ == 'marked_to_delete': self.oflushed_deleted.append(obj)
         slots = w.last_slots; num = w.last_num
         self.count('pos-inv:' + ('holds' if pos_inv(slots) else 'FAILS'))
         txn_before = [bool(cache.in_transaction), bool(cache.immediate)]
@@ -705,7 +776,7 @@ class Run:
         del w.log[:]
         err = None
         try:
-            if kind == 'oflush': obj.flush()
+            if kind in ('oflush', 'oflush-full'): obj.flush()
             else: flush()
         except Exception as e:
             err = e
@@ -770,6 +841,13 @@ class Run:
                 u = objs[trace[-1][1]]
                 olds = [u._dbvals_.get(a) for a in u._attrs_with_columns_ if a.reverse]
                 det['preempted_by_on_delete'] = any(isinstance(v, core.Entity) and v._status_ in ('marked_to_delete', 'deleted') for v in olds)
+            # obj.delete(); obj.flush(): the object-level flush emits the DELETE alone, before the UPDATEs delete() queued
+            if kind == 'oflush' and obj._status_ == 'marked_to_delete' and 'FOREIGN KEY' in str(err):
+                det['oflush_of_deleted_object'] = True
+            if isinstance(err, core.OptimisticCheckError) and trace and trace[-1][0] == 'update':
+                u = objs[trace[-1][1]]
+                olds = [u._dbvals_.get(a) for a in u._attrs_with_columns_ if a.reverse]
+                if any(v in self.oflushed_deleted for v in olds if isinstance(v, core.Entity)): det['oflush_of_deleted_object'] = True
             if trace and trace[-1][0] == 'delete' and 'FOREIGN KEY' in str(err):
                 try: det['refused_delete'] = w.blocking_rows_are_deleted_too(objs[trace[-1][1]])
                 except Exception as e2: det['classification_error'] = repr(e2)
@@ -799,6 +877,7 @@ class Run:
         """ops=None: generate online.  Returns the executed op list."""
         w = self.w; done = []
         w.objs = {}
+        self.oflushed_deleted = []
         failed = None
         nrec0 = len(self.records)
         bak = w.backup() if (self.all_explicit and not self.strict) else None
@@ -821,7 +900,11 @@ class Run:
                         # session is rolled back and the history reported in the notes.  Anything raised by the engine itself is re-raised.
                         tb = e.__traceback__
                         while tb.tb_next is not None: tb = tb.tb_next
-                        if 'pony' not in tb.tb_frame.f_code.co_filename and not isinstance(e, RecursionError): raise
+                        if 'pony' not in tb.tb_frame.f_code.co_filename and not isinstance(e, RecursionError):
+                            # not raised inside Pony: still a verdict with the input, never an engine crash
+                            import traceback as _tb
+                            self.escaped.append((type(e).__name__ + ': ' + str(e)[:200], self.hist + [done], ''.join(_tb.format_tb(e.__traceback__)[-3:])))
+                            failed = 'op'; break
                         self.count('op-crashed:' + type(e).__name__); failed = 'op'
                         self.byproducts.append((type(e).__name__, self.hist + [done]))
                         break
@@ -1067,6 +1150,8 @@ def explore(ctx, strict, nhist):
         runs.append(r)
         tagp = 'strict:' if strict else ''
         for k, v in r.stats.items(): ctx.count(tagp + k, v)
+        for msg, h, tbs in r.escaped:
+            ctx.divergence('an exception escaped from an operation outside Pony\'s own frames', {'spec': spec, 'history': h, 'strict': strict}, model=None, impl={'error': msg, 'where': tbs})
         for name, h in r.byproducts:
             if not any(n.startswith('by-product (not C16): ' + name) for n in ctx.notes):
                 ctx.note('by-product (not C16): %s inside an object-level operation of Pony (session rolled back by the engine); spec=%s history=%s'
@@ -1101,6 +1186,9 @@ STRICT_DELETE_KEY = 'strict-schema:DELETE-refused:delete-order-relies-on-ON-DELE
 # c's pending UPDATE (re-link) is cancelled by c's own deletion, c is queued behind `old`, and DELETE old is refused because
 # c's row still references it (the order DELETE c, DELETE old is accepted).  Same root cause as STRICT_DELETE_KEY.
 STALE_DELETE_KEY = 'pony-schema:DELETE-refused:stale-reference-of-a-row-deleted-later:pending-UPDATE-cancelled-by-its-own-deletion'
+# obj.delete(); obj.flush(): Entity.flush saves the deleted object alone - its DELETE overtakes the UPDATEs (and DELETEs) that
+# delete() queued before it to unlink its referrers (fixes/C16-flush-of-deleted-object.diff)
+OFLUSH_DELETED_KEY = 'obj.flush()-of-a-deleted-object:DELETE-overtakes-the-queued-unlinking-UPDATEs'
 PREEMPTED_UPDATE_KEY = 'pony-schema:OptimisticCheckError:pending-UPDATE-preempted-by-ON-DELETE-action-of-an-earlier-DELETE'
 CYCLE_DELETE_KEY = 'pony-schema:DELETE-refused:reference-cycle-between-deleted-rows:cascade-target-before-its-required-referrer'
 
@@ -1138,10 +1226,13 @@ def report(ctx, spec, hist, strict, what, detail, shrunk=False):
         # cycle would make the opposite order work)
         key = CYCLE_DELETE_KEY
         ctx.count('pony-schema:delete-refused:reference-cycle')
-    if not strict and what.startswith('flush raised OptimisticCheckError') and isinstance(det, dict) and det.get('preempted_by_on_delete') is True:
+    if what.startswith('flush raised') and isinstance(det, dict) and det.get('oflush_of_deleted_object') is True:
+        key = OFLUSH_DELETED_KEY
+        ctx.count('oflush-of-deleted-object')
+    elif not strict and what.startswith('flush raised OptimisticCheckError') and isinstance(det, dict) and det.get('preempted_by_on_delete') is True:
         key = PREEMPTED_UPDATE_KEY
         ctx.count('pony-schema:update-preempted-by-on-delete')
-    if key not in (STRICT_DELETE_KEY, CYCLE_DELETE_KEY, PREEMPTED_UPDATE_KEY, STALE_DELETE_KEY) and not shrunk:
+    if key not in (STRICT_DELETE_KEY, CYCLE_DELETE_KEY, PREEMPTED_UPDATE_KEY, STALE_DELETE_KEY, OFLUSH_DELETED_KEY) and not shrunk:
         spec2, hist2 = shrink(ctx, spec, hist, strict, what)
         return report(ctx, spec2, hist2, strict, what, detail, shrunk=True)
     if strict:
